@@ -15,6 +15,7 @@ def main():
     cases = common.random_family(rng, n, features=dict(history=True, parallel=True), max_nodes=10)
     cases += c11.family(rng, n // 2)
     cases += c10.family(rng, n // 3)
+    cases += common.nested_parallel_family(rng, n // 2)
     out = []
     for am, engine, runs, opts in cases:
         for cx, events in runs:
